@@ -310,3 +310,24 @@ pub fn corrupt_specs(seed: u64, thorough: bool) -> Vec<(BuildSpec, Vec<[usize; 3
     }
     out
 }
+
+/// C11 through the public API: the same payload under the eight forced masks, then with automatic selection (small symbols)
+pub fn candgroups(seed: u64, thorough: bool) -> Vec<BuildSpec> {
+    let mut out = Vec::new();
+    let mut r = rng(seed, 8);
+    let groups = if thorough { 400 } else { 60 };
+    for g in 0..groups {
+        let v = 1 + g % 5;
+        let e = (g / 5) % 4;
+        let mode = (g / 20) % 3;
+        let cap = capacity(mode, e, v);
+        let n = r.gen_range(0..=cap);
+        let p = payload(&mut r, mode, n, false);
+        for m in 0..9usize {
+            let mut s = spec(p.clone(), Some(e), Some(mode), Some(v), if m < 8 { Some(m) } else { None }, format!("candgroup:{v}:{e}:{m}"));
+            s.grp = 5_000_000 + g as u64;
+            out.push(s);
+        }
+    }
+    out
+}
